@@ -1,5 +1,6 @@
-/- C13 — kernel-evaluated table, address changes / churn (parallel build unit) -/
+/- C13 — kernel-evaluated table, address changes / churn, rows in which the host concerned is behind a box
+   (parallel build unit) -/
 import Ipv8.C13.Script
 namespace Ipv8.C13
-theorem tableJ : allCfgs.all (fun c => mutualDyn (scriptIntroducedRemapped c)) = true := by decide +kernel
+theorem tableJ : (allCfgs.filter boxedP).all (fun c => allOkDyn c (preIntroducedRemapped c)) = true := by decide +kernel
 end Ipv8.C13
